@@ -6,6 +6,7 @@
 -/
 import Proofs.Dispatch
 import Proofs.DispatchPool
+import Proofs.Pump
 import HapModel.Gen.Routes
 namespace Hap.Http
 
@@ -122,6 +123,40 @@ theorem C03_pool_history (routes : List Route) (ht : TableGuarded routes) (P : P
     ∀ x ∈ (runPool routes P lower p steps).2, x.1 = j → x.2.refusal = true :=
   runPool_stays_unverified routes ht P lower j steps p hv hs
 
+/-- The same at every point of every interleaved history, for connections that DID talk to the
+    exempt routes before (fresh, mid pair-setup, after a failed verify, after verify step 1 — and
+    while other connections do anything): whenever connection `i` is unverified at the moment its
+    non-exempt request is dispatched, the step leaves the whole pool unchanged and is a refusal. -/
+theorem C03_pool_always (routes : List Route) (ht : TableGuarded routes) (P : Params σ)
+    (lower : σ → Nat → Bool) (steps : List (Nat × Option Req × Bytes)) (p : Pool σ) :
+    PoolAlways routes P lower p steps :=
+  poolAlways routes ht P lower steps p
+
+/-! ### through the protocol object: what `_process_response` does with the refusal -/
+
+/-- One request as the connection's event pump handles it (`_process_one_event` on EndOfMessage:
+    `dispatch`, then `_process_response` with its deferred-task, session-key, session-teardown and
+    advertisement-refresh steps), for every h11 behaviour: on an unverified connection a request
+    that is not for an exempt route leaves the world untouched, parks no delayed response, installs
+    no session key, tears no session down, schedules no advertisement refresh; it writes at most
+    the one refusal (or h11 refuses to frame it and the pump closes). -/
+theorem C03_pump_request {H : Type} (I : H11 H) (routes : List Route) (ht : TableGuarded routes) (P : Params σ)
+    (td : Teardown σ) (c : Conn H σ) (h' : H) (hev : I.nextEvent c.h = (h', .endOfMessage))
+    (hv : c.w.verified = false) (hx : hitsExempt routes P (c.request, c.body.flatten) = false) :
+    let c' := (processOneEvent I (dispOk routes P) td c).1
+    c'.w = c.w ∧ c'.pending = c.pending ∧ c'.encrypted = c.encrypted ∧ c'.finishPair = c.finishPair ∧
+    c'.closing = c.closing ∧
+    (c'.out = c.out ∨ ∃ b, c'.out = c.out ++ [.write b]) := by
+  obtain ⟨hw, href⟩ := dispatch_unverified routes P c.w c.request c.body.flatten hv (nonexempt_guarded ht hx)
+  simp only [Resp.refusal, Bool.and_eq_true, Bool.not_eq_true'] at href
+  obtain ⟨⟨⟨⟨_, htask⟩, hkey⟩, hrem⟩, hchg⟩ := href
+  simp only [processOneEvent, hev, dispOk]
+  generalize dispatch routes P c.w c.request c.body.flatten = x at hw htask hkey hrem hchg
+  obtain ⟨w', r⟩ := x
+  simp only [] at hw htask hkey hrem hchg
+  subst hw
+  exact respond_plain I td _ r c.eoms htask hkey hrem hchg
+
 /-! ### the table before the repair: `POST /resource` had no guard -/
 
 /-- `handle_resource` as shipped: no privilege test. -/
@@ -179,5 +214,19 @@ example :
     ((runPool Gen.routes snapshotBody (fun _ _ => true) p
         [(0, resourceReq, []), (1, some { method := asc "POST", target := asc "/pairings", headers := [] }, []),
          (0, resourceReq, [])]).1.verified 0) = false := by decide
+
+/-- `C03_pump_request` is not vacuous: an unverified `POST /resource` arriving through the pump
+    (scripted h11) is answered by exactly one write, the snapshot counter stays 0, nothing is parked,
+    no key installed; the same request on a verified connection parks a delayed response instead. -/
+example :
+    let c : Conn (List Ev) Nat :=
+      { h := [.endOfMessage], w := { st := 0, verified := false, clientUuid := none }, request := resourceReq }
+    let c' := (processOneEvent scriptedH11 (dispOk Gen.routes snapshotBody) (fun w => (w, false)) c).1
+    c'.out.length = 1 ∧ c'.w.st = 0 ∧ c'.pending = none ∧ c'.encrypted = false := by decide
+example :
+    let c : Conn (List Ev) Nat :=
+      { h := [.endOfMessage], w := { st := 0, verified := true, clientUuid := some 1 }, request := resourceReq }
+    let c' := (processOneEvent scriptedH11 (dispOk Gen.routes snapshotBody) (fun w => (w, false)) c).1
+    c'.out = [] ∧ c'.w.st = 1 ∧ c'.pending.isSome = true := by decide
 
 end Hap.Http
